@@ -121,6 +121,9 @@ class FnTr:
                 return ("table", cn)
         if obj is core.UBX_MSGIDS:
             return ("msgids", None)
+        import pyubx2.ubxvariants as uv
+        if obj is uv.VARIANTS:
+            return ("variants", None)
         for f, cn in ((hp.val2bytes, "g_val2bytes"), (hp.bytes2val, "g_bytes2val")):
             if obj is f:
                 return ("typed", cn)
@@ -176,9 +179,11 @@ class FnTr:
             t, cn = self.fresh(), self.fresh("c")
             return [(t, "(do %s <- %s; if %s then (%s) else (%s))" % (
                 cn, c, cn, self.wrap(b1, "Ok %s" % a1), self.wrap(b2, "Ok %s" % a2)))], t
-        if isinstance(e, ast.Tuple):
-            bs, atoms = self.Es(e.elts, env)
+        if isinstance(e, (ast.Tuple, ast.List)):
+            bs, atoms = self.Es(e.elts, env)      # a list literal that is only read is rendered as a tuple
             return bs, "(Tup [%s])" % "; ".join(atoms)
+        if isinstance(e, ast.Dict) and not e.keys:
+            return [], "(Def [])"
         if isinstance(e, ast.Subscript):
             return self.subscript(e, env)
         if isinstance(e, ast.Call):
@@ -238,6 +243,24 @@ class FnTr:
         return b0 + b1 + [(t, "g_index %s %s" % (a0, a1))], t
 
     def call(self, e, env):
+        f = e.func
+        if (isinstance(f, ast.Attribute) and f.attr == "get" and isinstance(f.value, ast.Subscript)
+                and isinstance(f.value.value, ast.Name) and f.value.value.id not in env
+                and f.value.value.id not in self.assigned and self.resolve(f.value.value.id)[0] == "variants"
+                and len(e.args) == 2 and not e.keywords):
+            b0, a0 = self.E(f.value.slice, env)
+            b1, a1 = self.E(e.args[0], env)
+            b2, a2 = self.E(e.args[1], env)
+            t = self.fresh()
+            return b0 + b1 + b2 + [(t, "g_variants_get variants_modes %s %s %s" % (a0, a1, a2))], t
+        if isinstance(f, ast.Name) and f.id in env:
+            # a local that holds a selector function, called with positional arguments and **kwargs
+            if not (len(e.keywords) == 1 and e.keywords[0].arg is None and isinstance(e.keywords[0].value, ast.Name)
+                    and e.keywords[0].value.id == self.kwarg):
+                raise Untranslatable("%s: call of a local without **kwargs" % self.node.name)
+            b, atoms = self.Es(e.args, env)
+            t = self.fresh()
+            return b + [(t, "py_call v_%s [%s] k" % (f.id, "; ".join(atoms)))], t
         if not isinstance(e.func, ast.Name) or e.func.id in env or e.func.id in self.assigned:
             raise Untranslatable("%s: call of a non-global" % self.node.name)
         k, cn = self.resolve(e.func.id)
@@ -384,6 +407,8 @@ class FnTr:
             return self.raise_(s, env)
         if isinstance(s, ast.For):
             return self.for_(s, env, k)
+        if isinstance(s, ast.Try):
+            return self.try_(s, env, k)
         raise Untranslatable("%s: statement %s" % (self.node.name, type(s).__name__))
 
     @staticmethod
@@ -428,16 +453,46 @@ class FnTr:
             raise Untranslatable("%s: raise %s" % (self.node.name, exc.id))
         return "Raise %s" % cn
 
+    def always_exits(self, stmts):
+        for st in stmts:
+            if isinstance(st, (ast.Return, ast.Raise)):
+                return True
+            if isinstance(st, ast.If) and st.orelse and self.always_exits(st.body) and self.always_exits(st.orelse):
+                return True
+            if isinstance(st, ast.Try) and not st.finalbody and not st.orelse and self.always_exits(st.body) \
+                    and all(self.always_exits(h.body) for h in st.handlers):
+                return True
+        return False
+
+    def try_(self, s, env, k):
+        """try: <body that always returns or raises>  except <one exception class> [as name]: <handler>"""
+        if s.orelse or s.finalbody or len(s.handlers) != 1 or not isinstance(s.handlers[0].type, ast.Name):
+            raise Untranslatable("%s: try statement shape" % self.node.name)
+        if not self.always_exits(s.body):
+            raise Untranslatable("%s: try body that can fall through" % self.node.name)
+        kind, cn = self.resolve(s.handlers[0].type.id)
+        if kind != "exn":
+            raise Untranslatable("%s: except %s" % (self.node.name, s.handlers[0].type.id))
+        body = self.block(s.body, env, lambda env2: "Raise EOther")
+        henv = env | ({s.handlers[0].name} if s.handlers[0].name else set())
+        hname = "let v_%s := gnone in\n" % s.handlers[0].name if s.handlers[0].name else ""
+        handler = self.block(s.handlers[0].body, henv, k)
+        return "g_catch (\n%s\n) %s (\n%s%s\n)" % (body, cn, hname, handler)
+
     def message_ok(self, a, env):
         """The message of an exception: constants and f-strings over bound locals / constants / max, min, len, -, +."""
         for n in ast.walk(a):
             if isinstance(n, (ast.Constant, ast.JoinedStr, ast.FormattedValue, ast.Load, ast.BinOp, ast.Add, ast.Sub,
                               ast.Tuple)):
                 continue
+            if self.is_method and isinstance(n, ast.Attribute) and isinstance(n.value, ast.Name) and n.value.id == "self":
+                continue
+            if self.is_method and isinstance(n, ast.Name) and n.id == "self":
+                continue
             if isinstance(n, ast.Name):
-                if n.id in env or n.id in ("max", "min", "len") or (n.id not in self.assigned and self.resolve(n.id)[0] == "const"):
+                if n.id in env or n.id in ("max", "min", "len", "escapeall") or (n.id not in self.assigned and self.resolve(n.id)[0] == "const"):
                     continue
-            if isinstance(n, ast.Call) and isinstance(n.func, ast.Name) and n.func.id in ("max", "min", "len") and not n.keywords:
+            if isinstance(n, ast.Call) and isinstance(n.func, ast.Name) and n.func.id in ("max", "min", "len", "escapeall") and not n.keywords:
                 continue
             raise Untranslatable("%s: exception message uses %s" % (self.node.name, ast.dump(n)[:60]))
 
@@ -532,7 +587,8 @@ def targets(with_selectors=True):
             ("pyubx2.ubxmessage", "UBXMessage._do_len_checksum", "py_do_len_checksum", "(s__payload s__ubxClass s__ubxID : gv)"),
             ("pyubx2.ubxmessage", "UBXMessage.__setattr__", "py_setattr", "(s__immutable v_name v_value : gv)"),
             ("pyubx2.ubxmessage", "UBXMessage.__delattr__", "py_delattr", "(s__immutable v_name : gv)"),
-            ("pyubx2.ubxmessage", "UBXMessage.serialize", "py_serialize", "(s__checksum s__length s__payload s__ubxClass s__ubxID : gv)")]
+            ("pyubx2.ubxmessage", "UBXMessage.serialize", "py_serialize", "(s__checksum s__length s__payload s__ubxClass s__ubxID : gv)"),
+            ("pyubx2.ubxmessage", "UBXMessage._get_dict", "py_get_dict", "(s__mode s__ubxClass s__ubxID s_identity : gv) (k : kwargs)")]
     return out, sorted(sel)
 
 
@@ -545,7 +601,8 @@ def generate(report):
         failed["VARIANTS"] = str(e)
         tgts, sels = [t for t in targets(False)[0]], []
     arity, sigs = {}, {}
-    for modname, qual, cn, stub_sig in tgts:
+
+    def one(modname, qual, cn, stub_sig):
         try:
             mod = importlib.import_module(modname)
             path = mod.__file__
@@ -564,7 +621,10 @@ def generate(report):
             failed[cn] = str(e)
             out.append("(* %s.%s: NOT TRANSLATED (%s) *)\nDefinition %s %s : result gv := Raise EOther.\n" % (
                 modname, qual, str(e).replace("*", "x").replace('"', "'")[:200], cn, stub_sig))
-    out.append("Definition translated : list string := [%s]." % "; ".join(coq_str(c) for c in done))
+
+    nsel = len(sels)
+    for t in tgts[:nsel]:
+        one(*t)
     # the selectors by name, as _get_dict calls them: variant(msg, mode, **kwargs) or variant(**kwargs)
     rows = []
     for n in sels:
@@ -582,6 +642,19 @@ def generate(report):
                "Definition py_selector (name : string) (two : bool) (msg mode : gv) (k : kwargs) : result gv := Raise EOther.")
     out.append("Definition py_selectors : list string := [%s]." % "; ".join(
         coq_str(n) for n in sels if "py_" + n in done))
+    # a call `f(*pos, **kwargs)` of a local that holds one of those functions
+    out.append("Definition py_call (f : gv) (pos : list gv) (k : kwargs) : result gv :=\n"
+               "  match f, pos with\n  | Fn n, [] => py_selector n false gnone gnone k\n"
+               "  | Fn n, [a; b] => py_selector n true a b k\n  | _, _ => Raise EType\n  end.")
+    try:
+        from pyubx2.ubxvariants import VARIANTS
+        modes = sorted(int(m) for m in VARIANTS)
+    except Exception:  # pylint: disable=broad-except
+        modes = []
+    out.append("Definition variants_modes : list N := [%s]%%N.\n" % "; ".join(str(m) for m in modes))
+    for t in tgts[nsel:]:
+        one(*t)
+    out.append("Definition translated : list string := [%s]." % "; ".join(coq_str(c) for c in done))
     report["py2coq"] = {"translated": done, "untranslated": failed, "signatures": sigs}
     return "\n".join(out) + "\n"
 
